@@ -7,4 +7,5 @@ for k in 1 2 3; do
   /verif/tools/seed_import.py $prop $k /tmp/wt/$prop/out/$k $prop-$n 2>&1 | grep -v conda | tail -2 | tr '\n' ' '; echo
 done
 names=""; for k in 1 2 3; do n=$((k+off)); [ -d /verif/seeded/$prop-$n ] && names="$names $prop-$n"; done
+[ -n "$names" ] || { echo "$prop: nothing imported"; exit 0; }
 /verif/tools/seeded_run.py --update $names 2>&1 | grep -v conda | cut -c1-330
